@@ -8,7 +8,9 @@ data_types.EmailContent.iterate_supported_attachments (EXTRA `attachments_site`,
 invariant shared with contracts/C16.py).
 `os.path.splitext` and `mimetypes.guess_type` are uninterpreted (E, M): the
 proofs hold for *every* MIME database and every splitext satisfying axioms
-A1-A3 (A5 is used only by the alias lemma).  `str.lower` is uninterpreted: both
+A1-A3 (A5 is used only by the alias lemma).  Round 7: A1-A3 are discharged on
+the interpreter's own `genericpath._splitext` / `posixpath.splitext` (EXTRA
+`splitext_stdlib`); `archive_extractor._get_router_functions` has a contract.  `str.lower` is uninterpreted: both
 entry points are shown to depend on the path only through lower(path).
 """
 import z3
